@@ -18,10 +18,12 @@ def setup():
         man = json.load(open(os.path.join(core.VERIF, "MANIFEST.json")))
         claimed = [c["property_id"] for c in man["checks"]]
         targets = ["Properties/%s.vo" % p for p in claimed]
-        rc, out = core.sh(["make", "-j%d" % core.NPROC] + targets, cwd=core.COQ, timeout=7000)
+        # -k: a cone that does not build is reported by that property's own check (which rebuilds it and names the
+        # broken obligation); it must not take the setup of the other properties down with it
+        rc, out = core.sh(["make", "-k", "-j%d" % core.NPROC] + targets, cwd=core.COQ, timeout=7000)
         core.log(out[-1500:])
         if rc != 0:
-            return 1
+            core.log("[setup] WARNING: some property cones do not build (their checks will report it)")
         core.sh(["make", "-k", "-j%d" % core.NPROC], cwd=core.COQ, timeout=7000)
         import glob
         tags = [""] + sorted(os.path.basename(p)[7:-2] for p in glob.glob(os.path.join(core.COQ, "Extract", "Extract?*.v")))
